@@ -63,7 +63,7 @@ def lex(src):
 def struct_fields(src, name, skip_unknown=False):
     """fields of the struct with their fragment types; with skip_unknown, fields of types outside the
     fragment are left out (a method that touches one is then an error)"""
-    m = re.search(r"pub struct %s\s*\{(.*?)\n\}" % re.escape(name), src, re.S)
+    m = re.search(r"\n(?:pub )?struct %s\s*\{(.*?)\n\}" % re.escape(name), src, re.S)
     if not m:
         raise GenError("struct %s not found" % name)
     body = re.sub(r"///[^\n]*|//[^\n]*|#\[[^\]]*\]", "", m.group(1))
@@ -104,6 +104,8 @@ def norm_type(t):
         return "vec"
     if t == "Option<u64>":
         return "opt_u64"
+    if t == "Option<u32>":
+        return "opt_u32"
     if t == "Result<(),ValidationError>":
         return "result_unit"
     if re.match(r"^[A-Z][A-Za-z0-9]*$", t):
@@ -465,6 +467,7 @@ class Gen:
         self.tmp = 0
         self.policy_fields = policy_fields or {}
         self.policy_used = []
+        self.consts = {}
 
     def fresh(self):
         self.tmp += 1
@@ -488,6 +491,8 @@ class Gen:
         if k == "var":
             if e[1] == "None":
                 return [], "None", want or "opt_id"
+            if e[1] not in env and e[1] in self.consts:
+                return [], "%d" % self.consts[e[1]][1], self.consts[e[1]][0]
             if e[1] not in env:
                 raise GenError("unknown variable %s" % e[1])
             return [], e[1], env[e[1]]
@@ -564,6 +569,35 @@ class Gen:
                 if ta != "u64" or tc != "u64":
                     raise GenError("saturating_add on %s" % ta)
                 return b1 + b2, "(sat_add %s %s)" % (a, c), "u64"
+            if name == "saturating_sub" and len(args) == 1:
+                b1, a, ta = self.expr(recv, env)
+                b2, c, tc = self.expr(args[0], env, ta)
+                if ta != tc or ta not in INT:
+                    raise GenError("saturating_sub on %s and %s" % (ta, tc))
+                return b1 + b2, "(%s - %s)" % (a, c), ta          # N subtraction truncates at 0
+            if name == "unwrap_or" and len(args) == 1:
+                b1, a, ta = self.expr(recv, env)
+                if ta not in ("opt_u32", "opt_u64"):
+                    raise GenError("unwrap_or on a %s" % ta)
+                inner = "u32" if ta == "opt_u32" else "u64"
+                # the argument of unwrap_or is evaluated whether or not it is needed
+                b2, c, tc = self.expr(args[0], env, inner)
+                if tc != inner:
+                    raise GenError("unwrap_or(%s) on %s" % (tc, ta))
+                return b1 + b2, "(match %s with Some v_ => v_ | None => %s end)" % (a, c), inner
+            if recv == ("var", "self") and name in self.methods and self.methods[name]["selfmode"] == "ref" and args:
+                m2 = self.methods[name]
+                if len(args) != len(m2["params"]):
+                    raise GenError("call of %s with %d arguments" % (name, len(args)))
+                bs, cs = [], []
+                for a_, (pn, pt) in zip(args, m2["params"]):
+                    b_, c_, t_ = self.expr(a_, env, pt)
+                    if t_ != pt:
+                        raise GenError("argument %s of %s: %s given, %s expected" % (pn, name, t_, pt))
+                    bs += b_
+                    cs.append(c_)
+                x = self.fresh()
+                return bs + [(x, "gen_%s prof self %s" % (name, " ".join(cs)))], x, m2["ret"]
             if name == "clone" and not args:
                 b1, a, ta = self.expr(recv, env)
                 if ta not in ("opt_id", "id"):
@@ -607,8 +641,11 @@ class Gen:
                 x, y = (c, a) if op in (">", ">=") else (a, c)
                 return b1 + b2, code % (x, y), "bool"
             if ta == "u32":
-                raise GenError("u32 arithmetic is outside the fragment")
-            fn = {"+": "add_p prof", "-": "sub_p prof", "*": "mul_p prof", "/": "div_p", "%": "rem_p"}[op]
+                if op not in ("+", "-"):
+                    raise GenError("u32 %s is outside the fragment" % op)
+                fn = {"+": "add32_p prof", "-": "sub32_p prof"}[op]
+            else:
+                fn = {"+": "add_p prof", "-": "sub_p prof", "*": "mul_p prof", "/": "div_p", "%": "rem_p"}[op]
             x = self.fresh()
             return b1 + b2 + [(x, "%s %s %s" % (fn, a, c))], x, ta
         raise GenError("expression %r is outside the fragment" % (e,))
@@ -864,7 +901,7 @@ class Gen:
         env = {x: t for x, t in m["params"]}
         self.cur = m
         rt = {"u64": "N", "usize": "N", "u32": "N", "bool": "bool", "unit": "unit", "vec": "list N", "result_unit": "bool", "opt_id": "option N", "id": "N"}[m["ret"]]
-        params = " ".join("(%s : %s)" % (x, {"bool": "bool", "vec": "list N", "opt_u64": "option N", "opt_id": "option N"}.get(t, "N")) for x, t in m["params"])
+        params = " ".join("(%s : %s)" % (x, {"bool": "bool", "vec": "list N", "opt_u64": "option N", "opt_id": "option N", "opt_u32": "option N"}.get(t, "N")) for x, t in m["params"])
         res = ("(%s * %s)" % (self.struct, rt) if m["ret"] != "unit" else self.struct) if m["selfmode"] == "mut" else rt
         self.tmp = 0
         self.policy_used = []
@@ -979,8 +1016,44 @@ def generate_enforcement(repo):
     return {"translated": ["EnforcementState::" + n for n in names], "fields": [f for f, _ in fields]}
 
 
+def const_table(src):
+    """`const NAME: T = <integer>;` declarations of a file"""
+    out = {}
+    for m in re.finditer(r"\n(?:pub(?:\([a-z]+\))? )?const ([A-Z_][A-Z0-9_]*)\s*:\s*(u64|u32|usize)\s*=\s*([\d_]+)\s*;", src):
+        out[m.group(1)] = (m.group(2), int(m.group(3).replace("_", "")))
+    return out
+
+
+def generate_monitor(repo):
+    path = os.path.join(repo, "vls-core", "src", "monitor.rs")
+    src = open(path).read()
+    names = ["depth_of", "deep_enough_and_saw_node_forget", "is_done"]
+    fields = struct_fields(src, "State", skip_unknown=True)
+    methods, texts = {}, {}
+    for n in names:
+        texts[n] = fn_source(src, "State", n)
+        methods[n] = P(lex(texts[n])).fn()
+    g = Gen("rms", fields, methods)
+    g.field_list = fields
+    g.consts = const_table(src)
+    tmap = {"u64": "N", "usize": "N", "u32": "N", "bool": "bool", "vec": "list N", "opt_id": "option N", "id": "N", "opt_u32": "option N", "opt_u64": "option N"}
+    out = ["Record rms := mk_rms {\n%s\n}." % ";\n".join("  rms_%s : %s" % (f, tmap[t]) for f, t in fields)]
+    for n in names:
+        out.append("(* %s\n%s *)\n%s" % (n, "\n".join("   " + l for l in texts[n].strip().replace("(*", "( *").replace("*)", "* )").splitlines()),
+                                            g.method(methods[n])))
+    used = sorted(k for k in g.consts if any(k in texts[n] for n in names))
+    text = ("(** GENERATED by tools/gen_rustfn.py from vls-core/src/monitor.rs (struct State: the fields whose types are\n"
+            "    inside the fragment; fn depth_of, fn deep_enough_and_saw_node_forget, fn is_done; constants %s) - do not edit. *)\n"
+            "From VLS Require Export Base.Rust.\n\n" % ", ".join("%s = %d" % (k, g.consts[k][1]) for k in used) + "\n\n".join(out) + "\n")
+    outp = os.path.join(ROOT, "coq", "theories", "Gen", "MonitorGen.v")
+    if not os.path.exists(outp) or open(outp).read() != text:
+        open(outp, "w").write(text)
+    return {"translated": ["monitor::State::" + n for n in names], "fields": [f for f, _ in fields], "constants": {k: g.consts[k][1] for k in used}}
+
+
 if __name__ == "__main__":
     repo = sys.argv[1] if len(sys.argv) > 1 else "/repo"
     print(generate_velocity(repo))
     print(generate_payments(repo))
     print(generate_enforcement(repo))
+    print(generate_monitor(repo))
